@@ -5,6 +5,7 @@
     QR = bit 15, opcode = bits 14..11, AA TC RD RA Z AD CD = bits 10..4, rcode = bits 3..0.
 -/
 import DnsModel.Lemmas.Header
+import DnsModel.Tie.Header
 namespace Dns.C12
 open Dns
 
@@ -259,5 +260,57 @@ theorem getters (p : Bytes) (ext : Option Nat) (hp : 12 ≤ p.length) :
 example : hSetFlags [0x12,0x34, 0x00,0x01, 0,1,0,0,0,0,0,0] 0 = .ok [0x12,0x34, 0x00,0x01, 0,1,0,0,0,0,0,0] := by decide
 example : hSetFlags [0x12,0x34, 0x04,0x00, 0,1,0,0,0,0,0,0] 0 = .ok [0x12,0x34, 0x00,0x00, 0,1,0,0,0,0,0,0] := by decide
 example : hSetOpcode [0,0, 0xff,0xff, 0,1,0,0,0,0,0,0] 2 = .ok [0,0, 0x97,0xff, 0,1,0,0,0,0,0,0] := by decide
+
+
+/-! ### The same statements about the functions translated from the current source text
+`Tr.Header.*` (Generated/TrHeader.lean) is written by rs2lean.py from /repo/src/parsed_packet.rs on every run;
+`Tie/Header.lean` proves each translated function equal to the model function used above. -/
+theorem source_set_flags_frame (p : Bytes) (a : Nat) (hp : 12 ≤ p.length) :
+    ∃ p', Tr.Header.set_flags p a = .ok p' ∧ sameExcept p p' 2 4 ∧
+      opcodeOf (word p') = opcodeOf (word p) ∧ rcodeOf (word p') = rcodeOf (word p) ∧
+      (∀ i, isFlagBit i → (word p').testBit i = a.testBit i) ∧
+      Tr.Header.set_flags p (a % 65536) = Tr.Header.set_flags p a := by
+  simp only [Tie.set_flags_eq]
+  exact set_flags_frame p a hp
+theorem source_set_response_frame (p : Bytes) (b : Bool) (hp : 12 ≤ p.length) :
+    ∃ p', Tr.Header.set_response p b = .ok p' ∧ sameExcept p p' 2 4 ∧
+      (word p').testBit 15 = b ∧ ∀ i, i < 15 → (word p').testBit i = (word p).testBit i := by
+  simp only [Tie.set_response_eq]
+  exact set_response_frame p b hp
+theorem source_set_tid_frame (p : Bytes) (tid : Nat) (hp : 12 ≤ p.length) :
+    ∃ p', Tr.Header.set_tid p (tid % 65536) = .ok p' ∧ sameExcept p p' 0 2 ∧
+      Tr.Header.tid p' = .ok (tid % 65536) ∧ word p' = word p := by
+  simp only [Tie.set_tid_eq, Tie.tid_eq]
+  exact set_tid_frame p tid hp
+theorem source_set_rcode_frame (p : Bytes) (rc : Nat) (hp : 12 ≤ p.length) :
+    ∃ p', Tr.Header.set_rcode p rc = .ok p' ∧ sameExcept p p' 3 4 ∧
+      rcodeOf (word p') = rc % 16 ∧ ∀ i, 4 ≤ i → (word p').testBit i = (word p).testBit i := by
+  simp only [Tie.set_rcode_eq]
+  exact set_rcode_frame p rc hp
+theorem source_set_opcode_frame (p : Bytes) (op : Nat) (hp : 12 ≤ p.length) :
+    ∃ p', Tr.Header.set_opcode p op = .ok p' ∧ sameExcept p p' 2 3 ∧
+      opcodeOf (word p') = op % 16 ∧ ∀ i, (i < 11 ∨ 15 ≤ i) → (word p').testBit i = (word p).testBit i := by
+  simp only [Tie.set_opcode_eq]
+  exact set_opcode_frame p op hp
+theorem source_getters (p : Bytes) (ext : Option Nat) (hp : 12 ≤ p.length) (hext : Tie.ExtOK ext) :
+    Tr.Header.tid p = .ok (get16 p 0) ∧ Tr.Header.opcode p = .ok (opcodeOf (word p)) ∧ Tr.Header.rcode p = .ok (rcodeOf (word p)) ∧
+      Tr.Header.is_response p ext = .ok ((word p).testBit 15) ∧
+      ∃ f, Tr.Header.flags p ext = .ok f ∧ (∀ i, i < 16 → f.testBit i = (flagBit i && (word p).testBit i)) ∧
+        (∀ i, f.testBit (i + 16) = (ext.getD 0).testBit i) := by
+  simp only [Tie.tid_eq, Tie.opcode_eq, Tie.rcode_eq, Tie.is_response_eq p ext hext, Tie.flags_eq p ext hext]
+  exact getters p ext hp
+
+/-- the equalities themselves (one per function of the header API) -/
+theorem source_tie (p : Bytes) (ext : Option Nat) (hext : Tie.ExtOK ext) (a : Nat) (b : Bool) :
+    Tr.Header.tid p = hTid p ∧ Tr.Header.set_tid p a = hSetTid p a ∧ Tr.Header.flags p ext = hFlags p ext ∧
+    Tr.Header.set_flags p a = hSetFlags p a ∧ Tr.Header.dnssec p ext = hDnssec p ext ∧
+    Tr.Header.is_response p ext = hIsResponse p ext ∧ Tr.Header.set_response p b = hSetResponse p b ∧
+    Tr.Header.rcode p = hRcode p ∧ Tr.Header.set_rcode p a = hSetRcode p a ∧
+    Tr.Header.opcode p = hOpcode p ∧ Tr.Header.set_opcode p a = hSetOpcode p a :=
+  ⟨Tie.tid_eq p, Tie.set_tid_eq p a, Tie.flags_eq p ext hext, Tie.set_flags_eq p a, Tie.dnssec_eq p ext hext,
+   Tie.is_response_eq p ext hext, Tie.set_response_eq p b, Tie.rcode_eq p, Tie.set_rcode_eq p a,
+   Tie.opcode_eq p, Tie.set_opcode_eq p a⟩
+
+example : Tie.ExtOK (some 0x8000) := by intro e h; cases h; decide
 
 end Dns.C12
